@@ -85,6 +85,7 @@ def run_fn(case):
     res["nontrivial"] = True
     if case["start"] == 0:
         res["sample"] = {"universe": [list(x[0]) + [x[1]] for x in u], "example_set": [list(u[i][0]) + [u[i][1]] for i in (1, 8, 16)]}
+    res["evaluated"] = res["counters"]["fn_calls"]  # every call of the palette function, trivial or not
     return res
 
 
